@@ -227,7 +227,8 @@ Definition json_key (a : atom) : option pystr :=
   | ABool true => Some (s2p "true")
   | ABool false => Some (s2p "false")
   | ANone => Some (s2p "null")
-  | AHalf t => Some (p_of_Z (Z.div t 2) ++ s2p (if Z.even t then ".0" else ".5"))%list   (* float.__repr__, t >= 0 *)
+  | AHalf t => Some ((if Z.ltb t 0 then s2p "-" else []) ++ p_of_Z (Z.div (Z.abs t) 2)
+                     ++ s2p (if Z.even t then ".0" else ".5"))%list       (* float.__repr__ of t/2, |t| < 2^53 *)
   | ABytes _ => None                        (* TypeError: keys must be str, int, float, bool or None *)
   end.
 Definition is_ascii (s : pystr) : bool := forallb (fun c => N.ltb c 128) s.
